@@ -123,7 +123,7 @@ theorem qualify_complete_all (g : Gen) (σ : Schema) (q q' : List Scope) (h : qu
     q'.length = q.length ∧ ∀ s' ∈ q', Complete s' :=
   qualifyFrom_complete g σ q [] q' h
 
-def g0 : Gen := ⟨fun i => "_col_" ++ toString i, id⟩
+def g0 : Gen := { colName := fun i => "_col_" ++ toString i, refold := id }
 def σ0 : Schema := [(["t"], ["a", "b"]), (["u"], ["b", "c"])]
 def isOptErr : Except Err Scope → Bool
   | .error .optimize => true
@@ -132,6 +132,38 @@ def sc1 (srcs : List Src) (w : Expr) : Scope :=
   { outer := [], joins := [], srcs := srcs, projs := [.item (.lit 1) none], whr := some w, group := [], having := none, order := [] }
 def tSrc : Src := ⟨.table ["t"], none⟩
 def uSrc : Src := ⟨.table ["u"], none⟩
+
+/-! ## join-context resolution of bare names in JOIN … ON -/
+
+/-- **join_context_within_prefix.**  A bare name in the ON condition of a join that no source of the whole scope owns
+    alone is bound — if at all — to a source among those AVAILABLE at that join (`pre`: the FROM source and the joins up to
+    and including this one, in definition order), and that source has the column; never to a table joined later. -/
+theorem join_context_within_prefix (env pre : Env) (n t : String) (hu : unique env n = none)
+    (h : qcolOn env pre (.col none n) = .ok (.col (some t) n)) :
+    ∃ cols, (t, cols) ∈ pre ∧ cols.contains n = true :=
+  qcolOn_prefix env pre n t hu h
+
+/-- the source collects the available sources by name in FROM/JOIN definition order (re-read each run) -/
+theorem generated_join_context_ok : Generated.C10.joinContextDefinitionOrder = true := by decide
+
+def σ4 : Schema := [(["x"], ["a"]), (["y"], ["d"]), (["z"], ["c", "e"])]
+/-- `SELECT q.c FROM (scope 0: outputs c) AS q JOIN y ON y.d = c JOIN z ON z.e = y.d` -/
+def qyz : Scope :=
+  { outer := [], srcs := [⟨.scope 0 true, some "q"⟩, ⟨.table ["y"], none⟩, ⟨.table ["z"], none⟩],
+    joins := [⟨false, [], some (.bin .eq (.col (some "y") "d") (.col none "c"))⟩,
+              ⟨false, [], some (.bin .eq (.col (some "z") "e") (.col (some "y") "d"))⟩],
+    projs := [.item (.col (some "q") "c") none], whr := none, group := [], having := none, order := [] }
+
+/-- `c` is ambiguous scope-wide (q and z) but unique among q, y: with the definition-order prefix it is `q.c`; with the
+    prefix of the cached mapping (plain tables y, z first, the derived table q last) it is bound to `z.c`, a table joined
+    LATER — the seeded regression, reproduced by the model when the generated flag is flipped -/
+theorem join_context_cached_order_witness :
+    (match qualifyScope g0 σ4 [["c"]] qyz, qualifyScope { g0 with joinCtxDefOrder := false } σ4 [["c"]] qyz with
+     | .ok s1, .ok s2 =>
+       (s1.joins.map (·.on)).head? == some (some (.bin .eq (.col (some "y") "d") (.col (some "q") "c")))
+       && (s2.joins.map (·.on)).head? == some (some (.bin .eq (.col (some "y") "d") (.col (some "z") "c")))
+     | _, _ => false) = true := by decide +kernel
+
 
 /-- non-vacuity: `SELECT a + 1 AS x, x * 2 AS y, * FROM t WHERE x > 1 ORDER BY y` qualifies -/
 example : (match qualifyModel g0 σ0 [{ outer := [], joins := [], srcs := [tSrc], projs := [.item (.bin .add (.col none "a") (.lit 1)) (some "x"), .item (.bin .mul (.col none "x") (.lit 2)) (some "y"), .star none []], whr := some (.bin .gt (.col none "x") (.lit 1)), group := [], having := none, order := [.col none "y"] }] with
@@ -374,10 +406,10 @@ theorem output_names_preserved (g : Gen) (σ : Schema) (outs : List (List String
   obtain ⟨srcs', env0, hme, _, hb, _⟩ := qualifyScope_ok g σ outs s s' h
   refine ⟨srcs', env0, hme, ?_⟩
   intro hst
-  rw [buildScope_noMerge g _ srcs' s hm] at hb
+  rw [buildScope_noMerge g _ _ srcs' s hm] at hb
   split at hb
   · simp at hb
-  · exact buildCore_names g _ srcs' _ false _ s s' hb hstar hst
+  · exact buildCore_names g _ _ srcs' _ false _ s s' hb hstar hst
 
 /-- non-vacuity: `SELECT a AS x, *, b + 1, u.c FROM t, u` with outer column list (p) over t(a,b), u(b,c) is `NamesStable` and
     gets the names p, a, b, b, c, _col_5, c -/
